@@ -41,7 +41,10 @@ int main(int argc, char** argv) {
   if (h == "toBits") {
     int neg = (int)in.S("negative");
     uint32_t r = ld(xv).toBits(neg != 0);
-    uint32_t e = (TB_M(x) | (TB_N(x) << 24) | ((neg != 0 && (TB_M(x) & 0x007fffffu) != 0) ? 0x00800000u : 0u));
+    uint32_t e = spec_toBits(x, neg);
+    // the macro form of the same definition (spec.h) must agree with the single-evaluation form used by the contract
+    uint32_t em = (TB_M(x) | (TB_N(x) << 24) | ((neg != 0 && (TB_M(x) & 0x007fffffu) != 0) ? 0x00800000u : 0u));
+    if (e != em) { printf("NOT-REPRODUCED: spec forms disagree (0x%08x vs 0x%08x)\n", e, em); return 2; }
     printf("toBits=0x%08x expected=0x%08x\n", r, e);
     return verdict(r == e, "toBits(x) == compact encoding of the Bitcoin definition");
   }
